@@ -9,7 +9,7 @@ from vf.runner import Acc, filler
 PROPERTY = "C04"
 CONCUR_FILES = ('bits/tx.py', 'bits/utils.py', 'bits/blockchain.py')
 # (thread a, thread b), warm-up: indices into seq_ops() - the ordinary single-case checks run concurrently (vf/concur.py)
-CONCUR_SCEN = [((0, 2), ()), ((0, 0), (4,)), ((2, 4), (0,)), ((0, 8), (2,))]
+CONCUR_SCEN = [((0, 2), ()), ((0, 0), (4,)), ((2, 4), (0,)), ((0, 8), (2,)), ((0, 2, 4), ())]   # the last one: three threads
 LEVEL = "exploration"
 RULE = ("transactions from the grammar (segwit on/off, 1..3 inputs/outputs, sequences incl. fffffffe and 0, script lengths "
         "{0,1,75,76,253}, witness shapes, versions, locktimes) within deviation <= 2 (quick) / <= 4 (thorough) of a legacy and "
@@ -177,7 +177,7 @@ def jobs(tier, seed):
     nsh = 16 if tier == "quick" else 48
     from vf.runner import seq_jobs
     return [{"name": f"ids/{sh}", "part": "ids", "shard": [sh, nsh], "weight": 5} for sh in range(nsh)] + \
-        [{"name": "block", "part": "block", "weight": 2}] + seq_jobs(3, weight=3) + __import__("vf.runner", fromlist=["x"]).concur_jobs(len(CONCUR_SCEN))
+        [{"name": "block", "part": "block", "weight": 2}] + seq_jobs(3, weight=3) + __import__("vf.runner", fromlist=["x"]).concur_jobs(len(CONCUR_SCEN) - (1 if tier == "quick" else 0))
 
 
 def run_job(job):
@@ -188,7 +188,7 @@ def run_job(job):
         return run_concur_job(job, scens, run_case, PROPERTY, CONCUR_FILES)
     if job["part"] == "seq":
         from vf.runner import run_seq_job
-        return run_seq_job(job, seq_ops(job), run_case)
+        return run_seq_job(job, seq_ops(job), run_case, depth=3 if job["tier"] == "quick" else 4)
     acc = Acc(job)
     seed = job["seed"]
     d = 2 if job["tier"] == "quick" else 4
